@@ -266,6 +266,7 @@ package csproto
 //@   ensures  implies(err == nil, varintOK(d.p, old(d.offset)) && d.offset == old(d.offset)+varintLen(d.p, old(d.offset)))
 //@   ensures  implies(err == nil, uint64(tag) == varintVal(d.p, old(d.offset))>>3 && uint64(wireType) == varintVal(d.p, old(d.offset))&7)
 //@   ensures  implies(varintTruncated(d.p, old(d.offset)), err != nil)
+//@   ensures  implies(err == nil, d.offset-old(d.offset) >= vlen(keyOf(tag, 0)))
 //@   modifies d.offset
 
 //@ func (d *Decoder) DecodeBool() (b bool, err error)
@@ -406,4 +407,5 @@ package csproto
 //@   ensures  implies(keyBefore(d.p, old(d.offset), tag, wt) && err == nil, gocv_view(b, d.p, old(d.offset)-keyLen(tag, wt), d.offset))
 //@   ensures  implies(keyBefore(d.p, old(d.offset), tag, wt) && fieldTruncated(d.p, old(d.offset)-keyLen(tag, wt)), err != nil)
 //@   ensures  implies(wt != WireTypeVarint && wt != WireTypeFixed64 && wt != WireTypeLengthDelimited && wt != WireTypeFixed32, err != nil)
+//@   ensures  implies(err == nil && old(d.offset) >= vlen(keyOf(tag, 0)), len(b) == d.offset-old(d.offset)+vlen(keyOf(tag, 0)) && d.offset >= old(d.offset))
 //@   modifies d.offset
